@@ -265,9 +265,8 @@ impl GenericsAnalyzer {
                             self.trait_generics.where_predicates.push(predicate.clone());
                         }
                     },
-                    _ => {
-                        self.trait_generics.where_predicates.push(predicate.clone());
-                    }
+                    // lifetimes are parameters of the method, so are the predicates on them
+                    _ => {}
                 }
             }
         };
@@ -297,7 +296,10 @@ impl GenericsAnalyzer {
 
         if let Some(where_clause) = &generics.where_clause {
             for predicate in &where_clause.predicates {
-                self.trait_generics.where_predicates.push(predicate.clone());
+                // lifetimes are parameters of the method, so are the predicates on them
+                if let syn::WherePredicate::Type(_) = predicate {
+                    self.trait_generics.where_predicates.push(predicate.clone());
+                }
             }
         }
 
